@@ -27,7 +27,7 @@ func init() {
 			"the compiler rejects node kinds it cannot translate instead of leaving the operand stack inconsistent (R-EXHAUST/Compile).",
 		NotDecided:  "Stack balance in general, symbol-table histories (slot arithmetic), host crashes from value-level arithmetic.",
 		Assumptions: []string{"the VM dispatch is the switch over Opcode with the most cases in (*VM).Run", "ip is the instruction pointer variable of Run"},
-		Rules:       []*Rule{ruleOpTable, ruleNarrow, ruleJumpPatch, exhaustRule("Compile", 20)},
+		Rules:       []*Rule{ruleOpTable, ruleNarrow, ruleJumpPatch, exhaustRule("Compile", 20), ruleLoopVarScope, ruleVMValues, f2iRule("pkg/bytecode", 2)},
 	})
 }
 
@@ -200,5 +200,19 @@ func init() {
 		NotDecided:  "The grouping outcome for arbitrary style histories beyond these clauses, numeric formatting, the sign flip of the y extent in Rect.",
 		Assumptions: []string{},
 		Rules:       []*Rule{ruleSVG, ruleBuiltinSig},
+	})
+}
+
+func init() {
+	Register(&Property{
+		ID: "C16",
+		Explanation: "Decides structural necessary conditions of 'the VM behaves like the evaluator': the compiler rejects what it cannot translate " +
+			"(R-EXHAUST/Compile); compiler and evaluator implement the same operator matrix or the compiler rejects the rest (R-DISPATCH); the same " +
+			"scope structure for loop variables (R-LOOPVARSCOPE) and the same declaration order (initialiser before definition); the same value " +
+			"discipline: fresh containers, no lost updates on by-value copies (R-VMVALUES); strings handled by code point (R-RUNES/pkg/bytecode); " +
+			"user numbers become indexes only through NaN/fraction-safe guards (R-F2I/pkg/bytecode).",
+		NotDecided:  "Equality of final globals in general; slot arithmetic of the symbol table; constant pooling.",
+		Assumptions: []string{},
+		Rules:       []*Rule{exhaustRule("Compile", 20), ruleDispatch, ruleLoopVarScope, ruleVMValues, runesRule("pkg/bytecode", "stringVal", 4), f2iRule("pkg/bytecode", 2)},
 	})
 }
